@@ -16,7 +16,7 @@
 #include <vf/hooks.hpp>
 #include <vf/dense.hpp>
 #include <vf/krylov.hpp>
-#include <Eigen/SparseLU>
+#include <vf/cond.hpp>
 #include <boost/property_tree/json_parser.hpp>
 #include <omp.h>
 
@@ -28,35 +28,6 @@ typedef boost::property_tree::ptree ptree;
 
 static const char *COARS[4] = {"aggregation", "smoothed_aggregation", "smoothed_aggr_emin", "ruge_stuben"};
 static const char *RELAX[9] = {"damped_jacobi", "spai0", "spai1", "gauss_seidel", "ilu0", "iluk", "ilup", "ilut", "chebyshev"};
-
-//---------------------------------------------------------------------------
-// conditioning of the call: exact 2-norms for n <= 400, rigorous upper bounds for larger nonsingular M-matrices
-// (A^-1 >= 0  =>  ||A^-1||_inf = ||A^-1 1||_inf, ||A^-1||_1 = ||A^-T 1||_inf, ||.||_2 <= sqrt(||.||_1 ||.||_inf)).
-//---------------------------------------------------------------------------
-static Cond cond_of(const Csr<double> &A) {
-    Cond K;
-    if (A.n <= 400) {
-        Eigen::MatrixXd D = vf::to_dense(A).cast<double>(); Eigen::JacobiSVD<Eigen::MatrixXd> svd(D);
-        Eigen::VectorXd s = svd.singularValues(); K.normA = s[0]; K.normAinv = 1.0 / s[s.size() - 1]; K.how = "dense-svd";
-        if (!(s[s.size() - 1] > 0) || !std::isfinite(K.normAinv)) { fprintf(stderr, "generator produced a singular matrix\n"); exit(3); }
-        return K;
-    }
-    typedef Eigen::SparseMatrix<double, Eigen::ColMajor, int> SM; std::vector<Eigen::Triplet<double>> t; t.reserve(A.nnz());
-    std::vector<double> rs(A.n, 0), csum(A.m, 0);
-    for (size_t i = 0; i < A.n; ++i) for (ptrdiff_t j = A.ptr[i]; j < A.ptr[i + 1]; ++j) { t.emplace_back((int)i, (int)A.col[j], A.val[j]); rs[i] += std::fabs(A.val[j]); csum[A.col[j]] += std::fabs(A.val[j]);
-        if ((size_t)A.col[j] != i && A.val[j] > 0) { fprintf(stderr, "cond_of: positive off-diagonal, M-matrix bound not applicable\n"); exit(3); } }
-    SM M(A.n, A.n); M.setFromTriplets(t.begin(), t.end()); M.makeCompressed();
-    Eigen::SparseLU<SM> lu; lu.compute(M); if (lu.info() != Eigen::Success) { fprintf(stderr, "cond_of: SparseLU failed\n"); exit(3); }
-    Eigen::VectorXd one = Eigen::VectorXd::Ones(A.n); Eigen::VectorXd y = lu.solve(one);
-    SM Mt = M.transpose(); Eigen::SparseLU<SM> lut; lut.compute(Mt); Eigen::VectorXd z = lut.solve(one);
-    double ymin = y.minCoeff(), zmin = z.minCoeff();
-    if (!(ymin > 0) || !(zmin > 0)) { fprintf(stderr, "cond_of: A^-1 1 not positive (%g, %g): not an M-matrix\n", ymin, zmin); exit(3); }
-    // validate the solves (harness-side consistency): ||A y - 1||_inf small
-    { Eigen::VectorXd rr = M * y - one; if (!(rr.cwiseAbs().maxCoeff() < 1e-6)) { fprintf(stderr, "cond_of: inaccurate reference solve\n"); exit(3); } }
-    K.normAinv = std::sqrt(y.maxCoeff() * z.maxCoeff()) * 1.01;
-    K.normA = std::sqrt(*std::max_element(rs.begin(), rs.end()) * *std::max_element(csum.begin(), csum.end()));
-    K.how = "m-matrix-bound"; return K;
-}
 
 // Probe estimate of ||P||_2 (lower estimate): amplification of three seeded random vectors and of the final residual direction.
 // The rounding noise that P amplifies is unstructured, so the random-probe gain (~ ||P||_F / sqrt(n)) is the relevant scale.
